@@ -160,6 +160,12 @@ func tmHistory(t *testing.T, r *Recorder, cfg tmCfg, evs []tmEvent, class string
 // Oracle on the real run: the manager counted no more round-trip samples than there were
 // acknowledgements of packets that had not been retransmitted.
 func tmConnTrace(t *testing.T, r *Recorder, n uint8, freq, dir, k int) {
+	tmConnTraceHS(t, r, n, freq, dir, k, false)
+}
+
+// With dupSYN the transport duplicates the client's SYN: the server answers both copies, so its own
+// SYN goes out twice and the SYNACK that follows is no round-trip sample.
+func tmConnTraceHS(t *testing.T, r *Recorder, n uint8, freq, dir, k int, dupSYN bool) {
 	const lat = 150 * time.Millisecond
 	faults := make([]Fault, k+1)
 	faults[k] = Fault{Drop: true}
@@ -167,9 +173,22 @@ func tmConnTrace(t *testing.T, r *Recorder, n uint8, freq, dir, k int) {
 		PingNs: int64(4 * time.Second), PongNs: int64(6 * time.Second), HsTimeout: 2 * time.Second, TmFreq: freq,
 		Msgs: [2][]int{{3, 5, 2, 9}, {4, 1}}, SendGap: [2]time.Duration{9 * time.Second, 13 * time.Second}, RunFor: 50 * time.Second}
 	sc.Faults[dir] = cleanHS(dir, faults)
+	if dupSYN {
+		sc.Name += ":dup-syn"
+		if len(sc.Faults[0]) == 0 {
+			sc.Faults[0] = make([]Fault, 1)
+		}
+		sc.Faults[0][0] = Fault{Dup: true}
+	}
+	var dynAtConnect [2]bool
 	var final [2]string
 	var counter [2]int
 	res := RunGbn(t, sc, func(sim *Sim, res *GbnResult, phase string) {
+		if phase == "connected" {
+			for ep := 0; ep < 2; ep++ {
+				dynAtConnect[ep] = res.Conns[ep].VTimeouts().VState().HasSetDynamic
+			}
+		}
 		if phase == "before-close" {
 			for ep := 0; ep < 2; ep++ {
 				final[ep] = tmShow(res.Conns[ep].VTimeouts())
@@ -237,9 +256,17 @@ func tmConnTrace(t *testing.T, r *Recorder, n uint8, freq, dir, k int) {
 				ops = append(ops, fmt.Sprintf("tmq.recv %s %d %d", kind, seq, int64(e.At)))
 			}
 		}
+		if syns > 1 && dynAtConnect[ep] {
+			r.Violate("C20/sample-from-retransmitted-syn", fmt.Sprintf("endpoint %d transmitted its SYN %d times during the handshake, yet the adaptive timeout had been set from a handshake sample when the handshake returned", ep, syns), sc)
+		}
 		if freq > 500 && counter[ep] > cleanAcks {
 			r.Violate("C20/sample-from-retransmitted-packet", fmt.Sprintf("endpoint %d counted %d round-trip samples, but only %d acknowledgements were for packets that had not been retransmitted (window %d, keepalive 4 s / 6 s, packet %d of direction %d lost once)",
 				ep, counter[ep], cleanAcks, n, k, dir), sc)
+		}
+		if dupSYN {
+			// which of the packets read during a restarted handshake the handshake code reports to
+			// the manager is not visible from outside: this scenario is judged by the oracle only
+			continue
 		}
 		r.EmitOKBlock(ops)
 		r.Emit("tm.show", final[ep])
@@ -255,6 +282,7 @@ func TestC20(t *testing.T) {
 				tmConnTrace(t, r, []uint8{5, 1, 20}[k%3], freq, dir, k)
 			}
 		}
+		tmConnTraceHS(t, r, 5, freq, 1, 3, true)
 	}
 	rng := newRand(20)
 	gaps := []time.Duration{0, 1, time.Millisecond, 17 * time.Millisecond, 300 * time.Millisecond, time.Second,
